@@ -1431,8 +1431,9 @@ def n4_catch_all(e: Engine, rep: Report):
                              path_of(s.ast.targets[0], s.frame) == cp and
                              fx.at(s) is not None]
 
-                def partial_ok(d):
-                    v = d.ast.value
+                def partial_ok(d, v=None, dctx=None):
+                    v = d.ast.value if v is None else v
+                    dctx = d.ctx if dctx is None else dctx
                     if not (isinstance(v, ast.Call) and
                             ast.unparse(v.func).endswith('partial') and
                             v.args and isinstance(v.args[0], ast.Attribute)):
@@ -1454,12 +1455,21 @@ def n4_catch_all(e: Engine, rep: Report):
                         len(rets[0].value.args) == 1 and isinstance(
                             rets[0].value.args[0], ast.Name) and \
                         rets[0].value.args[0].id == prm
-                    code = common.reply_constant_code(e, v.args[1], d.ctx) \
+                    code = common.reply_constant_code(e, v.args[1], dctx) \
                         if isinstance(v.args[1], (ast.Name, ast.Attribute)) \
                         else None
                     return shape and code is not None and \
                         str(code).startswith('4')
-                if pdefs:
+                # ... or handed straight to the helper that calls it:
+                # self._fail(result, partial(self._canned_reply, timed_out))
+                parg = None
+                if not defs and not pdefs and isinstance(a, ast.Call) and \
+                        isinstance(a.func, ast.Name) and not a.args and \
+                        a.func.id in getattr(m.frame, 'arg_exprs', {}):
+                    parg = m.frame.arg_exprs[a.func.id]
+                if parg is not None:
+                    ok = partial_ok(None, parg[0], parg[1].ctx)
+                elif pdefs:
                     ok = all(partial_ok(d) for d in pdefs)
                     n_f += len(pdefs) - 1
                 elif defs:
